@@ -55,6 +55,13 @@ PROPS["C02"] = doc_prop(
     nontrivial_key="kept_and_dropped",
     design=dict(quick=[bfs("MC_Convert", "Convert_q")], thorough=[bfs("MC_Convert", "Convert_t", timeout=3000)]))
 
+# C02 also replays the builder calls of the real converter against Convert.tla (fidelity: DRIFT only)
+PROPS["C02"]["stages"].append(dict(
+    name="convert-fidelity", handler="CONV",
+    gen=dict(runs=dict(quick=[bfs("MC_C02", "C02_quick")], thorough=[bfs("MC_C02", "C02_thorough")])),
+    sample=dict(quick=4000, thorough=60000), always_small=3,
+    trace=dict(module="ConvertTrace", cfg="ConvertTrace")))
+
 PROPS["C03"] = doc_prop(
     "C03",
     quick=[bfs("MC_C03", "C03_quick")],
